@@ -106,6 +106,76 @@ def requests(ctx):
     return batches, origin, small, big
 
 
+def after_requests(ctx, small, big):
+    """{batch: (model requests, implementation requests)}: the implementation is asked the same question after a history
+    of earlier, independent calls in the same process (implrunner op `after`); the model is asked the question alone"""
+    rng = ctx.rng
+    quick = ctx.tier == "quick"
+    modes = ("make_loop_index", "make_loop_index_comp")
+    multi = [s for s in small if "+" in s]
+    disc = [s for s in multi if len(lc.components(s)) > 1]
+    conn = [s for s in multi if len(lc.components(s)) == 1]
+    n = 250 if quick else 2500
+    pool = rng.sample(disc, min(len(disc), n)) + rng.sample(conn, min(len(conn), n // 2)) + \
+        [s for s in big if "+" in s][: (40 if quick else 400)] + ["((+))+((+))", "(+)+(+)", ".+.", "(+)+.", "(.+(+)+.)+.", "(+(+)+)"]
+
+    def other_calls(s, t, mode):
+        """earlier calls related to the table t of s, as entries of an `after` history whose operation is `mode`"""
+        alt = modes[1 - modes.index(mode)]
+        e = [["@op", alt, t], ["@op", "split_complex_pt", [lc.unique_stab(s), t]], t, lc.damage(rng, t),
+             ["@op", alt, lc.damage(rng, t)], ["@op", alt, lc.table_of(rng.choice(multi))]]
+        e = [x for x in e if rng.random() < 0.75]
+        rng.shuffle(e)
+        return e
+
+    ureqs, uimpl = [], []
+    for s in pool:
+        t = lc.table_of(s)
+        for mode in modes:
+            target = t if rng.random() < 0.85 else lc.damage(rng, t)
+            ureqs.append((mode, target))
+            uimpl.append(("after", [mode, other_calls(s, t, mode), target]))
+    # object level: the five views of a freshly built complex after split() of an equal complex (earlier registries are
+    # cleared by every op: only module-level state of the utilities can survive) and after utility calls on its table
+    oreqs, oimpl = [], []
+    opool = [s for s in disc if len(s) <= 7]
+    opool = rng.sample(opool, min(len(opool), 80 if quick else 1200)) + rng.sample(conn, min(len(conn), 25 if quick else 400)) + \
+        ["((+))+((+))", "(+)+((+))", ".+(+)"]
+    for s in opool:
+        seq = gs.seq_for(rng, s, names=("a", "b", "c"), complementary=rng.random() < 0.7)
+        rq = req_for("cx_views", s, rng=rng, seq=seq)
+        e = [["@op", "cx_split", [seq, list(s)]], ["@op", "make_loop_index_comp", lc.table_of(s)],
+             ["@op", "cx_split", [gs.seq_for(rng, s), list(s)]], [seq, list(s), [2, 3, 1, 0, 4]]]
+        e = [x for x in e if rng.random() < 0.7]
+        rng.shuffle(e)
+        oreqs.append(rq)
+        oimpl.append(("after", ["cx_views", e, rq[1]]))
+    return {"make_loop_index/after-earlier-calls": (ureqs, uimpl), "views/after-earlier-calls": (oreqs, oimpl)}
+
+
+def minimal_history(w):
+    """drop earlier calls from a failing `after` history while the answer still differs from that of a first call"""
+    from common import run_impl
+    name, earlier, args = w["input"]["after"]
+    fresh = canon(name, run_impl([(name, args)], jobs=1)[0])
+
+    def again(hist):
+        return canon(name, run_impl([("after", [name, hist, args])], jobs=1)[0])
+    k = 0
+    while k < len(earlier) and len(earlier) > 1:
+        shorter = earlier[:k] + earlier[k + 1:]
+        if again(shorter) != fresh:
+            earlier = shorter
+        else:
+            k += 1
+    got = again(earlier)
+    if got == fresh:
+        return w
+    return {"key": {"after": [name, earlier, args]}, "input": {"after": [name, earlier, args]},
+            "what": f"{name}{args!r} answers {got!r} after the earlier calls {earlier!r} in the same process, but {fresh!r} as a first call",
+            "snippet": f"# harness op after {[name, earlier, args]!r} (harness/implrunner.py)"}
+
+
 def history_witnesses(diffs):
     """disagreements of view histories (query, turns assignment, query): the direct statement of the property on the
     implementation is that every view equals that of a fresh complex at the same rotation"""
@@ -141,6 +211,12 @@ def run(ctx):
         batches["views-after-turns"] = tr
         for name, reqs in batches.items():
             diffs += correspond(ctx, name, reqs, canon=canon)
+        # nothing survives between independent calls: the same request after earlier calls in the same process on the
+        # SAME pair table in the other mode (components=True scans disconnected structures to the end, the plain mode
+        # raises), through split_complex_pt / ComplexS.split() (which scan in components mode), and on related tables
+        # (a single-fault damaged copy, another structure); connected and disconnected targets, both modes
+        for name, (reqs, impl) in after_requests(ctx, small, big).items():
+            diffs += correspond(ctx, name, reqs, canon=canon, impl_reqs=impl)
         # direct statement on the implementation: consuming split() (which works on the object's own tables) leaves every
         # position-level view of the object equal to that of a freshly built complex
         from common import run_impl, Err
@@ -188,7 +264,8 @@ def run(ctx):
     ctx.cov["partial"] = read_partial("C08")
 
     def search(diffs):
-        pre = history_witnesses(diffs)
+        from corr import after_witnesses
+        pre = history_witnesses(diffs) + [minimal_history(w) for w in after_witnesses(diffs, canon=canon)]
         rng = ctx.rng
         cases = []
         for d in diffs[:4]:
@@ -261,6 +338,12 @@ def replay(data):
         r = run_impl([("cx_dlc_direct", inp["dlc"])])[0]
         print(r)
         return 0 if (isinstance(r, list) and (r[0] != "ok" or r[1] == r[2])) else 1
+    if isinstance(inp, dict) and "after" in inp:
+        from common import run_impl
+        name, earlier, args = inp["after"]
+        a, b = run_impl([(name, args)], jobs=1)[0], run_impl([("after", inp["after"])], jobs=1)[0]
+        print("first call:", a, "| after earlier calls:", b)
+        return 1 if canon(name, a) != canon(name, b) else 0
     if isinstance(inp, dict) and "history" in inp:
         from common import run_impl
         r = run_impl([("c03_fresh_compare", inp["history"])])[0]
